@@ -297,3 +297,22 @@ Section Object.
 End Object.
 
 Definition init_state (ct : ctab) : state := mkState ct [] [].
+
+(* ---------- classes created after an instance of an earlier class was used ----------
+   get_prefix_trait stores the resolved trait in type(obj).__class_traits__ (ctraits.c l.630);
+   a class created later merges that dictionary as it is then (has_traits.py l.575-586). *)
+Fixpoint final_state (pt : ptab) (s : state) (ops : list op) : state :=
+  match ops with
+  | [] => s
+  | o :: r => final_state pt (fst (step pt s o)) r
+  end.
+
+Definition set_ctab (T : list (ctab * ptab)) (k : nat) (ct : ctab) : list (ctab * ptab) :=
+  firstn k T ++ match skipn k T with [] => [] | (_, pt) :: r => (ct, pt) :: r end.
+
+(* classes h1, then the history [pre] on a fresh instance of class k, then classes h2 *)
+Definition staged_tables (h1 : list classdef) (k : nat) (pre : list op) (h2 : list classdef)
+  : list (ctab * ptab) :=
+  let T1 := tables h1 in
+  let t := tabs_nth T1 k in
+  tables_from (set_ctab T1 k (s_ctd (final_state (snd t) (init_state (fst t)) pre))) h2.
